@@ -46,19 +46,26 @@ def respVerify (n : Nat) (w : Int) (y : Nat) (r : Resp) : Verdict := do
 
 def verify (pre : List Item) (pub prf : Rec) : Verdict := do
   let n := pub.pkV "N"
-  if n % 2 == 0 || probablyPrime n then return false
-  let w ← match prf.intV "W" with | some w => pure w | none => throw "nil W in zkmod proof (big.Jacobi)"
-  if jacobi w n != -1 then return false
-  if !isValidBigModN n (some w) then return false
-  match ← challenge pre pub prf with
+  let rs := (prf.listV "Responses").map respOf
+  -- IsValid (called first by Verify): W present, N odd and (W/N) = -1, W and every response in [1, N-1] and coprime to N
+  match prf.intV "W" with
   | none => return false
-  | some ys =>
-    let rs := (prf.listV "Responses").map respOf
-    -- every response is verified (pool.Parallelize evaluates all of them): a panic anywhere is a panic
-    let mut ok := true
-    for (r, y) in rs.zip ys do
-      if !(← respVerify n w y r) then ok := false
-    return ok
+  | some w =>
+    if n % 2 == 0 || jacobi w n != -1 then return false
+    if !isValidBigModN n (some w) then return false
+    if !(rs.all fun r => isValidBigModN n r.x && isValidBigModN n r.z) then return false
+    -- Verify
+    if n % 2 == 0 || probablyPrime n then return false
+    if jacobi w n != -1 then return false
+    if !isValidBigModN n (some w) then return false
+    match ← challenge pre pub prf with
+    | none => return false
+    | some ys =>
+      -- every response is verified (pool.Parallelize evaluates all of them): a panic anywhere is a panic
+      let mut ok := true
+      for (r, y) in rs.zip ys do
+        if !(← respVerify n w y r) then ok := false
+      return ok
 
 end Mod
 
@@ -86,11 +93,13 @@ def intOf : Val → Option Int
 def verify (pre : List Item) (pub prf : Rec) : Verdict := do
   let aux := pub.pedV "Aux"
   if !aux.validate then return false
+  let as := (prf.listV "As").map intOf
+  let zs := (prf.listV "Zs").map intOf
+  -- IsValid: every Aᵢ and Zᵢ present, in [1, N-1] and coprime to N
+  if !((as ++ zs).all (isValidBigModN aux.n)) then return false
   match ← challenge pre pub prf with
   | none => return false
   | some es =>
-    let as := (prf.listV "As").map intOf
-    let zs := (prf.listV "Zs").map intOf
     let one (a z : Option Int) (e : Bool) : Bool :=
       if !(isValidBigModN aux.n a && isValidBigModN aux.n z) then false
       else
